@@ -315,6 +315,8 @@ def _classify(ch):
 
 def concrete(fn, params, args):
     from curtsies.formatstring import fmtstr, FmtStr
+    if fn == "longsample":
+        return _longsample(params["k"])
     P.clear()
     P.update(params)
     if fn == "total":
@@ -358,3 +360,29 @@ def concrete(fn, params, args):
             keep += [isinstance(pc, int)] * (len(holes[pc]) if isinstance(pc, int) else len(pc))
         return {"ok": _subseq_ok(list(res), list(s), keep), "observed": repr(res), "expected": "input minus (parts of) the escape sequences, text kept", "call": call}
     return {"ok": res == text, "observed": repr(res), "expected": repr(text), "call": call}
+
+
+LONG_SAMPLES = [
+    "".join("\x1b[%dm%s" % (90 + (i % 8), "w%d " % i) for i in range(24)) + "\x1b[0m",            # bright colours, 25 sequences
+    "".join("\x1b[38;5;%dm%c\x1b[39m" % (i, 97 + i % 26) for i in range(20)),                       # 256-colour, 40 sequences
+    "x" + "".join("\x1b[1;3%dm%s\x1b[0m" % (i % 8, "ab") for i in range(30)) + "\x1b[2K\x1b[10;3Hy",   # supported + erase + move
+    "line1\n" + "".join("\x1b[4%dm \x1b[49m" % (i % 8) for i in range(18)) + "\nline3\x1b[21m!",       # 36 supported, one unsupported, newlines
+]
+
+
+def extra_concrete_cases():
+    """long real-world style lines (many sequences, supported and unsupported codes): finite data replayed on every run"""
+    return [("longsample", {"k": k}, []) for k in range(len(LONG_SAMPLES))]
+
+
+def _longsample(k):
+    import re
+    from curtsies.formatstring import fmtstr
+    s = LONG_SAMPLES[k]
+    want = re.sub(r"\x1b\[[0-9;]*[A-Za-z]", "", s)
+    call = "fmtstr(<long sample %d: %d characters, %d CSI sequences>)" % (k, len(s), s.count("\x1b["))
+    try:
+        r = fmtstr(s)
+    except Exception as ex:
+        return {"ok": False, "observed": "raised %r" % (ex,), "expected": "no exception", "call": call}
+    return {"ok": r.s == want, "observed": repr(r.s)[:200], "expected": repr(want)[:200], "call": call}
